@@ -33,7 +33,9 @@ Walk(tr, k, mods, fps, drift) ==
   ELSE IF ~st.unchanged THEN <<k, "another_module_was_modified", drift>>
   ELSE IF st.a = "apply" THEN
     LET mods2 == ApplyTo(mods, st.m, st.kind)  new == mods2[Len(mods2)]
-        d2 == drift \/ SeqOf(st.backends) # new.backends \/ st.rerun # new.rerun
+        d2 == IF drift # "" THEN drift
+              ELSE IF SeqOf(st.backends) # new.backends THEN "backend_list_after_apply_at_step_" \o ToString(k)
+              ELSE IF st.rerun # new.rerun THEN "rerun_flag_after_apply_at_step_" \o ToString(k) ELSE ""
     IN IF ~st.disjoint THEN <<k, "storage_shared_with_source", d2>>
        ELSE IF ~(EachOnce(SeqOf(st.backends)) /\ UsBeforeQ(SeqOf(st.backends))) /\ FALSE THEN <<k, "unreachable", d2>>
        ELSE Walk(tr, k + 1, mods2, fps, d2)
@@ -42,7 +44,7 @@ Walk(tr, k, mods, fps, drift) ==
         ran == SeqOf(st.ran)
         own == mods[st.m].backends
         key == SemanticSet(own)
-        d2 == drift \/ ran # Sem(r.ran)
+        d2 == IF drift # "" THEN drift ELSE IF ran # Sem(r.ran) THEN "pipeline_ran_at_call_step_" \o ToString(k) ELSE ""
     IN IF ran # <<>> /\ ran # Sem(own) THEN <<k, "wrong_pipeline_ran", d2>>         \* every transform once, unit scaling before quantisation
        ELSE IF key \in DOMAIN fps /\ fps[key] # st.fp THEN <<k, "function_depends_on_history_not_on_transform_set", d2>>
        ELSE Walk(tr, k + 1, r.mods, [x \in DOMAIN fps \cup {key} |-> IF x = key THEN st.fp ELSE fps[x]], d2)
@@ -51,9 +53,9 @@ VARIABLES l, fails, drifts
 vars == <<l, fails, drifts>>
 Init == l = 1 /\ fails = <<>> /\ drifts = <<>>
 Step1 == /\ l <= NT
-         /\ LET v == Walk(Traces[l], 1, <<Original>>, [x \in {} |-> 0], FALSE) IN
+         /\ LET v == Walk(Traces[l], 1, <<Original>>, [x \in {} |-> 0], "") IN
               /\ fails' = IF v[2] = "ok" \/ Len(fails) >= 50 THEN fails ELSE Append(fails, <<l, v[1], v[2]>>)
-              /\ drifts' = IF v[3] /\ Len(drifts) < 20 THEN Append(drifts, <<l, "backend_list_or_flag_bookkeeping">>) ELSE drifts
+              /\ drifts' = IF v[3] # "" /\ Len(drifts) < 20 THEN Append(drifts, <<l, "backend_list_or_flag_bookkeeping:" \o v[3]>>) ELSE drifts
          /\ l' = l + 1
 Finish == /\ l = NT + 1
           /\ JsonSerialize(IOEnv.OUT_FILE, [fails |-> fails, drifts |-> drifts, n |-> NT, ev |-> NT])
